@@ -4,7 +4,6 @@ package main
 
 import (
 	"fmt"
-	"go/token"
 	"sort"
 	"strings"
 
@@ -195,15 +194,21 @@ func c08PausedPromotion(r *Run) {
 		if unwrap(p.Resolve(ret.Results[0])) != ssa.Value(utd) {
 			continue
 		}
-		var notes []string
-		a := c05Classify(site, p, &notes)
-		if is(a.eqActive, true) || is(a.activeNil, true) || is(a.noCanary, true) || is(a.valid, true) {
-			continue
-		}
-		n++
-		if !is(a.paused, false) {
-			okAll = false
-			detail = "a path returns the up-to-date replica set without explicit validation and without paused=false: " + describeAtoms(a) + " " + strings.Join(notes, "; ")
+		// every alternative of the path (helpers of the decision expanded) must justify the promotion
+		for _, alt := range decisionAlternatives(r.Prog, p) {
+			var notes []string
+			a := classifyDecisionA(r.Prog, site, alt, &notes)
+			if is(a.eqActive, true) || is(a.activeNil, true) || is(a.noCanary, true) || is(a.valid, true) {
+				continue
+			}
+			n++
+			if !is(a.paused, false) && okAll {
+				okAll = false
+				detail = "a path returns the up-to-date replica set without explicit validation and without paused=false: " + describeAtoms(a)
+				if len(notes) > 0 {
+					detail += "; " + strings.Join(notes, "; ")
+				}
+			}
 		}
 	}
 	o := r.Check("C08.R2", "time promotion while paused", r.Prog.Pos(fn.Pos()), shortFunc(fn),
@@ -255,14 +260,15 @@ func c08ReaderTable(r *Run, fn *ssa.Function, key, trueVal, condType string) {
 		r.Undecided("C08.R3", "reader table", pos, shortFunc(fn), "no annotations parameter")
 		return
 	}
-	paths, _, ok := funcPaths(fn, 5000)
+	paths, k, ok := funcPaths(fn, 5000)
 	r.paths += len(paths)
 	if !ok {
 		r.Undecided("C08.R3", "reader table", pos, shortFunc(fn), "path cap exceeded")
 		return
 	}
-	lookupOf := func(v ssa.Value, idx int) bool {
-		v = stripConv(v)
+	// matchers read a fact in the environment of the (possibly nested) helper it was found in
+	lookupOf := func(v ssa.Value, env *envT, idx int) bool {
+		v, env = stripConvE(v, env)
 		var l *ssa.Lookup
 		if e, isE := v.(*ssa.Extract); isE {
 			if e.Index != idx {
@@ -275,24 +281,52 @@ func c08ReaderTable(r *Run, fn *ssa.Function, key, trueVal, condType string) {
 				return false
 			}
 		}
-		if l == nil || stripConv(l.X) != ssa.Value(ann) {
+		if l == nil {
 			return false
 		}
-		s, okc := constString(l.Index)
+		if m, _ := stripConvE(l.X, env); m != ssa.Value(ann) {
+			return false
+		}
+		kv, _ := stripConvE(l.Index, env)
+		s, okc := constString(kv)
 		return okc && s == key
 	}
-	isVal := func(v ssa.Value) bool { return lookupOf(v, 0) }
-	isFound := func(v ssa.Value) bool { return lookupOf(v, 1) }
-	eqTrue := func(v ssa.Value, _ string) bool { return isEqCompare(v, isVal, isConstStringVal(trueVal)) }
-	condTrue := func(v ssa.Value, _ string) bool {
-		call, isC := v.(*ssa.Call)
+	eqTrue := func(xf xfact) bool {
+		return isEqCompare(xf.V, func(v ssa.Value) bool { return lookupOf(v, xf.env, 0) }, isConstStringVal(trueVal))
+	}
+	found := func(xf xfact) bool { return lookupOf(xf.V, xf.env, 1) }
+	condTrue := func(xf xfact) bool {
+		call, isC := xf.V.(*ssa.Call)
 		if !isC || condType == "" || calleeName(&call.Call) != pkgERSCond+".IsConditionTrue" {
 			return false
 		}
 		t, okc := condTypeConst(call)
-		root, okr := singleRootWithSuffix(call.Call.Args[0], "Status")
-		_, isP := root.(*ssa.Parameter)
-		return okc && t == condType && okr && isP
+		root, okr := singleRootWithSuffixE(call.Call.Args[0], xf.env, "Status")
+		pr, isP := root.(*ssa.Parameter)
+		return okc && t == condType && okr && isP && pr.Parent() == fn
+	}
+	ersNil := func(xf xfact) bool {
+		return isNilCompareOf(xf.V, func(x ssa.Value) bool {
+			v, _ := stripConvE(x, xf.env)
+			pr, isP := v.(*ssa.Parameter)
+			return isP && pr.Parent() == fn
+		})
+	}
+	stop := func(g *ssa.Function) bool { return g.Pkg != nil && g.Pkg.Pkg.Path() == pkgERSCond }
+	has := func(alt []xfact, pol bool, m func(xfact) bool) bool {
+		for _, xf := range alt {
+			if xf.Pol == pol && m(xf) {
+				return true
+			}
+		}
+		return false
+	}
+	descAlt := func(alt []xfact) string {
+		fs := factSet{}
+		for _, xf := range alt {
+			fs[fkey(xf.Fact)] = xf.Fact
+		}
+		return shortSet(fs)
 	}
 	okAll, detail := true, ""
 	bad := func(s string) {
@@ -301,36 +335,35 @@ func c08ReaderTable(r *Run, fn *ssa.Function, key, trueVal, condType string) {
 		}
 	}
 	nTrue := 0
+	check := func(facts []Fact, outcome bool) {
+		for _, alt := range expandAlternatives(r.Prog, facts, nil, 0, stop) {
+			if outcome {
+				nTrue++
+				if !(has(alt, true, eqTrue) || has(alt, true, condTrue)) {
+					bad("can be true without annotation == \"" + trueVal + "\": " + descAlt(alt))
+				}
+				continue
+			}
+			if !(has(alt, false, eqTrue) || has(alt, false, found)) {
+				bad("can be false without establishing annotation != \"" + trueVal + "\": " + descAlt(alt))
+			}
+			// false although the condition may be true: allowed only when the replica set is nil
+			if condType != "" && !has(alt, false, condTrue) && !has(alt, true, ersNil) {
+				bad("can be false without consulting the replica set's condition: " + descAlt(alt))
+			}
+		}
+	}
 	for _, p := range paths {
 		ret := returnOf(p.Blocks[len(p.Blocks)-1])
 		res := p.Resolve(ret.Results[0])
+		facts := factList(p.Facts)
 		if b, isC := constBool(res); isC {
-			if b {
-				nTrue++
-				if !(p.Has(true, eqTrue) || p.Has(true, condTrue)) {
-					bad("returns true on a path without annotation == \"" + trueVal + "\": " + shortFacts(p))
-				}
-			} else {
-				absent := p.Has(false, eqTrue) || p.Has(false, func(v ssa.Value, _ string) bool { return isFound(v) })
-				if !absent {
-					bad("returns false on a path that does not establish annotation != \"" + trueVal + "\": " + shortFacts(p))
-				}
-				if condType != "" && !p.Has(false, condTrue) {
-					// false although the condition may be true: allowed only when the replica set is nil
-					if !p.Has(true, func(v ssa.Value, _ string) bool {
-						return isNilCompareOf(v, func(x ssa.Value) bool { _, isP := x.(*ssa.Parameter); return isP })
-					}) {
-						bad("returns false without consulting the replica set's condition: " + shortFacts(p))
-					}
-				}
-			}
+			check(facts, b)
 			continue
 		}
-		nTrue++
-		bo, isB := res.(*ssa.BinOp)
-		if !isB || bo.Op != token.EQL || !isEqCompare(res, isVal, isConstStringVal(trueVal)) {
-			bad("returns " + res.String() + ", which is not the comparison annotation == \"" + trueVal + "\"")
-		}
+		// a computed result: both outcomes, each with what the result expression then implies
+		check(append(append([]Fact(nil), facts...), k.normCond(res, true)...), true)
+		check(append(append([]Fact(nil), facts...), k.normCond(res, false)...), false)
 	}
 	if nTrue == 0 {
 		bad("no path can return true")
